@@ -92,7 +92,7 @@ type C12Put struct {
 }
 
 type C12Op struct {
-	Kind string // put | get
+	Kind string // put | get | race (a get and a valid updating put for one stored mutable item, back to back)
 	Via  string // wire | wrapper | srvput
 	Put  C12Put
 	// get: Ref picks one of the targets put so far (mod); Unrelated asks for a target nobody put.
@@ -128,6 +128,9 @@ func genC12(t *rapid.T) C12Sc {
 				p.Reput = uniformInt(t, 4, "p.reput") == 0
 			}
 			op.Put = p
+		} else if uniformInt(t, 5, "op.race") == 0 {
+			op.Kind = "race"
+			op.Ref = rapid.IntRange(0, 31).Draw(t, "op.ref")
 		} else {
 			op.Kind = "get"
 			op.Via = rapid.SampledFrom([]string{"wire", "wire", "wrapper"}).Draw(t, "op.via")
@@ -148,6 +151,8 @@ type c12Target struct {
 	seq  int64
 	encV string
 	has  bool
+	// keyIdx: which harness key pair (b44Key(10+keyIdx)) the target belongs to
+	keyIdx int
 }
 
 func c12Salt(n int) []byte {
@@ -311,7 +316,7 @@ func runC12a(sc C12Sc, c *kit.Case) *kit.Violation {
 			if accepted {
 				ct := targets[tgt]
 				if ct == nil {
-					ct = &c12Target{target: tgt, mutable: mutable, pub: key.pub, salt: salt}
+					ct = &c12Target{target: tgt, mutable: mutable, pub: key.pub, salt: salt, keyIdx: p.Key}
 					targets[tgt] = ct
 					order = append(order, tgt)
 				}
@@ -326,6 +331,71 @@ func runC12a(sc C12Sc, c *kit.Case) *kit.Violation {
 			} else {
 				c.Label("put-invalid-" + codesStr(codes))
 			}
+		case "race":
+			// a get and a valid update of the same stored mutable item arrive back to back: whatever version
+			// the get is answered with must be a version that verifies
+			var ct *c12Target
+			for k := 0; k < len(order); k++ {
+				if x := targets[order[(op.Ref+k)%len(order)]]; x.mutable && x.has && len(x.salt) <= 64 {
+					ct = x
+					break
+				}
+			}
+			if ct == nil {
+				continue
+			}
+			key := b44Key(10 + ct.keyIdx)
+			tok, v := sv.tokenFor(c, from, sender, &tseq)
+			if v != nil {
+				v.Key = "C12:" + v.Key
+				return v
+			}
+			if c.Inconclusive != "" {
+				return nil
+			}
+			newSeq, newV := int64(oi+1), fmt.Sprintf("7:race%03d", oi%1000)
+			asker := &net.UDPAddr{IP: net.IP{7, 7, 6, 7}, Port: 7767}
+			tseq++
+			gt, pt := []byte(fmt.Sprintf("rg%d", tseq)), []byte(fmt.Sprintf("rp%d", tseq))
+			mark := sv.C.NumOut()
+			sv.C.Inject(asker, mkQuery(gt, "get", mkArgs(sender, BKV{K: "target", V: bs(ct.target[:])})))
+			sv.C.Inject(from, mkQuery(pt, "put", b44PutArgs(sender, key, ct.salt, newSeq, 0, newV, tok, nil)))
+			if !sv.barrier(c) {
+				return nil
+			}
+			outs := outsFrom(sv.C, mark)
+			if len(outs) < 2 {
+				waitFor(2*time.Second, func() bool { return len(outsFrom(sv.C, mark)) >= 2 })
+				outs = outsFrom(sv.C, mark)
+			}
+			what := fmt.Sprintf("op %d: get and updating put (seq %d -> %d) for target %x back to back", oi, ct.seq, newSeq, ct.target[:4])
+			po, pfound := replyTo(outs, from, pt)
+			g, gfound := replyTo(outs, asker, gt)
+			if !pfound || po.Y != "r" {
+				return kit.Violatef("C12:valid-put-refused", "%s: the valid update was not answered with a response (%d datagrams)", what, len(outs))
+			}
+			oldSeq, oldV := ct.seq, ct.encV
+			ct.seq, ct.encV = newSeq, newV
+			last = &lastPut{ct.keyIdx, len(ct.salt), newSeq, newV}
+			if !gfound || g.Y != "r" {
+				return kit.Violatef("C12:get-not-answered", "%s: the get was not answered with a response", what)
+			}
+			r, _ := g.R()
+			gv, hasV := r.Get("v")
+			if !hasV {
+				return kit.Violatef("C12:accepted-item-not-served", "%s: the get reply has no value: %s", what, g.Describe())
+			}
+			kk, _ := r.Get("k")
+			sg, _ := r.Get("sig")
+			sq, _ := r.Get("seq")
+			enc := gv.Encode(false)
+			if refmodel.Bep44MutableTarget([]byte(kk.S), ct.salt) != ct.target || !refmodel.Bep44Verify([]byte(kk.S), ct.salt, sq.I, enc, []byte(sg.S)) {
+				return kit.Violatef("C12:served-unverifiable", "%s: the get was answered with (seq=%d, v=%q), which does not verify under the item's key and salt: %s", what, sq.I, enc, g.Describe())
+			}
+			if !(sq.I == oldSeq && string(enc) == oldV) && !(sq.I == newSeq && string(enc) == newV) {
+				return kit.Violatef("C12:served-other-than-accepted", "%s: the get was answered with (seq=%d, v=%q), neither the old (seq=%d, v=%q) nor the new version", what, sq.I, enc, oldSeq, oldV)
+			}
+			c.Label("get-racing-update")
 		case "get":
 			var tgt [20]byte
 			var ct *c12Target
